@@ -84,11 +84,25 @@ pub fn write(
     }
 
     // Next write all the mappings provided by the caller
+    let entry_address = dumper.auxv.get_entry_address().map(u64::from);
+    let mut entry_module_supplied = false;
     for user in &config.user_mapping_list {
         // GUID was provided by caller.
         // ... and so was the name: it is listed as given, not looked up on this machine.
         let module = fill_raw_module(buffer, &user.mapping, &user.identifier, None, false)?;
-        modules.push(module);
+        // The first module is taken for the main executable. When the caller describes the
+        // mapping that holds the program's entry point, the target's own mapping of it was
+        // skipped above and this record takes its place.
+        let holds_entry = entry_address.is_some_and(|entry| {
+            entry >= module.base_of_image
+                && entry - module.base_of_image < u64::from(module.size_of_image)
+        });
+        if holds_entry && !entry_module_supplied {
+            entry_module_supplied = true;
+            modules.insert(0, module);
+        } else {
+            modules.push(module);
+        }
     }
 
     let list_header = MemoryWriter::<u32>::alloc_with_val(buffer, modules.len() as u32)?;
